@@ -50,6 +50,7 @@ type AtCall struct {
 	Pattern string // callee key, or suffix match
 	Args    []string
 	Asserts []*Clause
+	Assumes []*Clause // behaviour assumptions about the environment, assumed right after the call returns
 	// optional site filter "where ARG from CALLEE": only call sites whose argument
 	// ARG is the result of a call to CALLEE
 	FromArg    string
@@ -135,7 +136,7 @@ func NewSpecs() *Specs {
 
 var trailingComment = regexp.MustCompile(`\s{2,}#.*$`)
 
-var kwRe = regexp.MustCompile(`^(requires|ensures|invariant|decreases|assert|modifies|loop|at-call|func|assumed|fun|axiom|define|opaque|stable|hidden|reveal|ghost|sort|pure|sets|after|before|lemma)\b(\[[^\]]*\])?\s*(.*)$`)
+var kwRe = regexp.MustCompile(`^(requires|ensures|invariant|decreases|assert|modifies|loop|at-call|func|assumed|fun|axiom|define|opaque|stable|hidden|reveal|ghost|sort|pure|sets|after|before|lemma|assume)\b(\[[^\]]*\])?\s*(.*)$`)
 
 type rawItem struct {
 	kw, tags, rest string
@@ -425,7 +426,7 @@ func (s *Specs) LoadFile(path string, commentPrefix string) error {
 				}
 			}
 			cur.Modifies = append(cur.Modifies, mc)
-		case "requires", "ensures", "invariant", "decreases", "assert", "after":
+		case "requires", "ensures", "invariant", "decreases", "assert", "after", "assume":
 			if cur == nil {
 				return perr(it, "%s outside func", it.kw)
 			}
@@ -460,6 +461,14 @@ func (s *Specs) LoadFile(path string, commentPrefix string) error {
 					return perr(it, "assert outside at-call")
 				}
 				curAt.Asserts = append(curAt.Asserts, cl)
+			case "assume":
+				if curAt == nil {
+					return perr(it, "assume outside at-call")
+				}
+				if _, behs := splitTagKinds(cl.Tags); len(behs) == 0 {
+					return perr(it, "assume must carry a behaviour tag (it restricts the environment)")
+				}
+				curAt.Assumes = append(curAt.Assumes, cl)
 			}
 		}
 	}
